@@ -360,6 +360,72 @@ func c04Crash(c *Ctx) {
 	for _, ext := range []string{".mem", ".vlog"} {
 		c04FileCreationCrash(c, ops, snaps, ext)
 	}
+	c04CeilingAfterRecovery(c)
+}
+
+// c04CeilingAfterRecovery: what a recovered process hands out must again be covered by what it persisted — a
+// restart followed by a few mutation ids and a kill, repeated: no id may be handed out twice
+func c04CeilingAfterRecovery(c *Ctx) {
+	dir := scratchDir("c04m")
+	defer os.RemoveAll(dir)
+	ch, msg := StartChild(dir, nil)
+	if ch == nil {
+		c.Report("H", "C04 child-start", msg, "")
+		return
+	}
+	defer func() {
+		if ch != nil {
+			ch.Kill()
+		}
+	}()
+	resp, _ := ch.HTTP("POST", "repos", []byte(`{"alias":"m","description":"d"}`))
+	root := jsonField(resp.Body, "root")
+	ch.HTTP("POST", "repo/"+root+"/instance", []byte(`{"typename":"labelmap","dataname":"lm"}`))
+	var issued []uint64
+	hist := []string{}
+	take := func(k int) bool {
+		for i := 0; i < k; i++ {
+			a, _ := ch.Ask("MUTID " + root + " lm")
+			id, err := strconv.ParseUint(strings.TrimSpace(a), 10, 64)
+			if err != nil {
+				c.Report("H", "C04 mutid", a, "")
+				return false
+			}
+			for _, o := range issued {
+				if o == id {
+					c.Report("O", "C04 id-reissued-after-recovery", "a mutation id handed out before a crash is handed out again after recovery",
+						fmt.Sprintf("id %d\nhistory:\n  %s", id, strings.Join(hist, "\n  ")))
+					return false
+				}
+			}
+			issued = append(issued, id)
+			hist = append(hist, fmt.Sprintf("mutation id %d", id))
+		}
+		return true
+	}
+	if !take(3) {
+		return
+	}
+	for round, how := range []string{"SHUTDOWN", "kill", "kill", "SHUTDOWN", "kill"} {
+		if how == "kill" {
+			ch.Kill()
+		} else {
+			ch.Stop(how)
+		}
+		ch2, msg := StartChild(dir, nil)
+		if ch2 == nil {
+			ch = nil
+			c.Report("O", "C04 no-restart-after-crash", "after a crash the next start did not succeed without manual repair", msg)
+			return
+		}
+		ch = ch2
+		hist = append(hist, "restart ("+how+")")
+		c.Eval(fmt.Sprintf("ceiling after recovery round %d %s", round, how), true)
+		c.Count("crash.ceiling-round")
+		if !take(2 + round) {
+			return
+		}
+	}
 }
 
 // c04FileCreationCrash: the process is killed between the creation and the sizing of the store's next memtable
